@@ -417,6 +417,67 @@ def finding_witnesses(ctx):
                 ctx.known_hit(f)
 
 
+TICKET_CONTENTS = [
+    {'prim': 'nat'}, {'prim': 'string'}, {'prim': 'bytes'}, {'prim': 'int'}, {'prim': 'timestamp'}, {'prim': 'address'},
+    {'prim': 'pair', 'args': [{'prim': 'nat'}, {'prim': 'nat'}]},
+    {'prim': 'pair', 'args': [{'prim': 'string'}, {'prim': 'bytes'}]},
+    {'prim': 'pair', 'args': [{'prim': 'nat'}, {'prim': 'string'}, {'prim': 'key_hash'}]},
+    {'prim': 'pair', 'args': [{'prim': 'pair', 'args': [{'prim': 'int'}, {'prim': 'int'}]}, {'prim': 'bool'}]},
+    {'prim': 'option', 'args': [{'prim': 'nat'}]}, {'prim': 'option', 'args': [{'prim': 'string'}]},
+    {'prim': 'or', 'args': [{'prim': 'nat'}, {'prim': 'string'}]}, {'prim': 'or', 'args': [{'prim': 'bytes'}, {'prim': 'unit'}]},
+]
+
+
+def ticket_stream(ctx, rng, count):
+    """tickets are not in the Coq model (C20 owns them): oracle (B) only — a ticket (ticketer, content, amount) built from
+    Micheline must survive the three renderings; consecutive tickets deliberately share the head primitive of their content type"""
+    viol = []
+    for i in range(count):
+        content = rng.choice(TICKET_CONTENTS)
+        wrap = rng.choice(['plain', 'plain', 'option', 'list', 'pair'])
+        tt = {'prim': 'ticket', 'args': [content]}
+        tj = {'plain': tt, 'option': {'prim': 'option', 'args': [tt]}, 'list': {'prim': 'list', 'args': [tt]},
+              'pair': {'prim': 'pair', 'args': [{'prim': 'nat'}, tt]}}[wrap]
+        ok, T = lib.call(match_type, tj)
+        if not ok:
+            continue
+        cn = G.norm_type(content)
+        cv = G.gen_value(rng, cn, None, size=2)
+        ticketer = G.b58('KT1', G.gen_hash20(rng))
+        amount = rng.choice([1, 2, 63, 64, 2 ** 64, rng.getrandbits(40) + 1])
+        tick = {'prim': 'Pair', 'args': [{'string': ticketer}, {'prim': 'Pair', 'args': [G.readable_json(cv, None, rng), {'int': str(amount)}]}]}
+        lit = {'plain': tick, 'option': {'prim': 'Some', 'args': [tick]}, 'list': [tick, tick],
+               'pair': {'prim': 'Pair', 'args': [{'int': '7'}, tick]}}[wrap]
+
+        def tickets(o):
+            from pytezos.michelson import types as TT
+            if isinstance(o, TT.TicketType):
+                return [(o.ticketer, G.ast_of_obj(o.item), o.amount)]
+            if isinstance(o, TT.OptionType):
+                return tickets(o.item) if o.item is not None else []
+            if isinstance(o, (TT.ListType, TT.PairType)):
+                return [t for x in o.items for t in tickets(x)]
+            return []
+
+        want = [(ticketer, cv, amount)] * (2 if wrap == 'list' else 1)
+        ctx.case(('ticket', json.dumps(tj), json.dumps(lit)), nontrivial=True, kind='ticket:' + content['prim'])
+        meta = {'type': tj, 'value': lit}
+        ok, obj = lib.call(T.from_micheline_value, copy.deepcopy(lit))
+        if not ok or tickets(obj) != want:
+            viol.append((f'from_micheline_value does not build the ticket the literal denotes: {obj if not ok else tickets(obj)}',
+                         dict(meta, repro=f"MichelsonType.match({json.dumps(tj)}).from_micheline_value({json.dumps(lit)})")))
+            continue
+        for mode in G.MODES:
+            ok1, out = lib.call(obj.to_micheline_value, mode)
+            ok2, back = lib.call(T.from_micheline_value, copy.deepcopy(out)) if ok1 else (False, out)
+            if not ok1 or not ok2 or tickets(back) != want:
+                viol.append((f'{mode} round trip of a ticket fails: {back if not (ok1 and ok2) else tickets(back)}',
+                             dict(meta, mode=mode, output=out if ok1 else None,
+                                  repro=f"T=MichelsonType.match({json.dumps(tj)}); T.from_micheline_value(T.from_micheline_value({json.dumps(lit)}).to_micheline_value('{mode}'))")))
+                break
+    return viol
+
+
 def corpus(ctx):
     items = []
     for p in sorted(glob.glob(os.path.join(lib.VERIF, 'corpus', PROP, '*.json'))):
@@ -436,6 +497,7 @@ def run(ctx: lib.Ctx) -> None:
     viols = []
     viols += fixed_witnesses(ctx)
     finding_witnesses(ctx)
+    viols += ticket_stream(ctx, rng, ctx.n(60, 600))
     bads = []
 
     tv, ts_jobs = timestamp_cases(ctx, rng, ctx.n(150, 2000))
